@@ -218,6 +218,9 @@ func (_this *RulesEventReceiver) OnUID(value []byte) {
 }
 
 func (_this *RulesEventReceiver) OnTime(value compact_time.Time) {
+	if value.Timezone.Type == compact_time.TimezoneTypeAreaLocation {
+		_this.context.ValidateAreaLocation(value.Timezone.LongAreaLocation)
+	}
 	_this.context.NotifyNewObject(true)
 	_this.context.CurrentEntry.Rule.OnKeyableObject(&_this.context, DataTypeTime, value)
 	_this.receiver.OnTime(value)
